@@ -190,7 +190,7 @@ mutual
   termination_by i => sizeOf i
   decreasing_by all_goals c18_dec
   def fitsStep {L} (S : ScalarOps L) (F : FmtFacts) (lim : Limits) : Step L → Bool
-    | .attr _ => true
+    | .attr n => nameFits F lim n
     | .item i => fitsItem S F lim i
     | .items is => (is.map (fun i => fitsItem S F lim i)).all id
     | .call args kwargs =>
@@ -298,8 +298,8 @@ def Scalar.cutText (lim : Limits) : Scalar → String
   | .str cs =>
     let i := (lim.maxstring - 3) / 2
     let j := lim.maxstring - 3 - i
-    let s := pyStrRepr (cs.take i ++ cs.drop (cs.length - j))
-    String.ofList (s.toList.take i) ++ "..." ++ String.ofList (s.toList.drop (s.length - j))
+    let s := pyStrRepr (cs.take i ++ tailFrom cs j)
+    String.ofList (s.toList.take i) ++ "..." ++ String.ofList (tailFrom s.toList j)
   | .builtin _ raw => cutStr lim.maxother raw
   | v => cutStr lim.maxother v.text
 
